@@ -243,8 +243,49 @@ func runC09(c *kit.Ctx) {
 		}
 	}
 
+	// a region is published to the cache only after it was marked unavailable
+	for _, fn := range p.Funcs {
+		if enclosingNamed(fn).Pkg == nil || enclosingNamed(fn).Pkg.Pkg.Path() != kit.Module {
+			continue
+		}
+		for _, pc := range kit.Calls(fn, kit.M("", "*keyRegionCache", "put")) {
+			x := pc.Common().Args[1]
+			good := false
+			for _, mu := range kit.Calls(fn, muName) {
+				if kit.Same(mu.Common().Value, x) && kit.Dominates(mu.(ssa.Instruction), pc.(ssa.Instruction)) {
+					good = true
+				}
+			}
+			c.Check(good, fn, "mark-before-publish", pc.Pos(), "the region is marked unavailable before it becomes visible in the cache", "a freshly looked-up region is put into the cache before it is marked unavailable: a concurrent request finds it available without a client, wins MarkUnavailable and starts a second establisher for the same outage (double release: close of nil channel)")
+		}
+	}
+
 	// ---- R4 ---------------------------------------------------------------
 	c.StartRule("R4", "waiters re-validate after wake-up", 2)
+	// the channel waited on is the very value that was tested non-nil
+	kit.Instrs(gr, func(in ssa.Instruction) {
+		sel, ok := in.(*ssa.Select)
+		if !ok || !sel.Blocking {
+			return
+		}
+		for _, st := range sel.States {
+			if st.Dir != types.RecvOnly || !strings.HasSuffix(st.Chan.Type().String(), "chan struct{}") {
+				continue
+			}
+			src := kit.Root(st.Chan)
+			call, isCall := src.(*ssa.Call)
+			if !isCall || kit.CalleeName(call) != hrpcRI+"AvailabilityChan" {
+				continue
+			}
+			tested := false
+			for _, f := range kit.FactsAt(sel.Block()) {
+				if cmp, ok := kit.CanonCmp(f.Cond, f.Pol); ok && cmp.Op == token.NEQ && kit.IsNilConst(cmp.Y) && kit.Root(cmp.X) == src {
+					tested = true
+				}
+			}
+			c.Check(tested, gr, "wait-on-tested-channel", sel.Pos(), "waits on the availability channel value that was just tested non-nil (one read)", "the availability channel is read again for the wait: if the region becomes available between the test and the wait the request blocks on a nil channel although the region is healthy")
+		}
+	})
 	kit.Instrs(gr, func(in ssa.Instruction) {
 		sel, ok := in.(*ssa.Select)
 		if !ok || !sel.Blocking {
